@@ -4,6 +4,7 @@ import SamlModel.Model.SsoDriver
 import SamlModel.Model.CbDriver
 import SamlModel.Model.SloDriver
 import SamlModel.Model.AqDriver
+import SamlModel.Model.MdDriver
 import SamlModel.Exec.C16
 /-! Driver.step: dispatch of one protocol line.  Unknown or unparsable ops yield `bad-op`. -/
 namespace Driver
@@ -18,6 +19,7 @@ def step (line : String) : String :=
   | "cb" :: args => (CbDriver.run args).getD "bad-op"
   | "slo" :: args => (SloDriver.run args).getD "bad-op"
   | "aq" :: args => (AqDriver.run args).getD "bad-op"
+  | "md" :: args => (MdDriver.run args).getD "bad-op"
   | "chk" :: args => (ChkDriver.run args).getD "bad-op"
   | _ => "bad-op"
 
